@@ -201,9 +201,12 @@ func c05Sanitiser(e *Env) {
 	w, r := e.W, e.R
 	r.Explainf("C05.sanitiser: in appendHeaderLine the only raw operand is the key, appended after a range loop over the key that returns the buffer unchanged when Table[k]==0, with Table[c]==0 for CR, LF, NUL, SP and ':'; the value is appended only as sanitiser(value); the sanitiser returns a buffer of len(value) whose every element is overwritten by Table2[…] in a full-range loop, and Table2[i] ∉ {CR, LF} for all 256 i.")
 	choke, sanitiser := c05Choke(w)
-	if choke == nil || sanitiser == nil {
-		r.Anchor(rule, "protocol.appendHeaderLine and its value sanitiser")
+	if choke == nil {
+		r.Anchor(rule, "protocol.appendHeaderLine")
 		return
+	}
+	if sanitiser == nil {
+		r.Fail(rule, w.FuncName(choke.Obj)+":sanitiser-call", w.Pos(choke.Decl.Pos()), "the value is appended as sanitiser(value)", "no `append(dst, f(value)...)` in the choke point: the value does not pass through a sanitising function on its way into the header block")
 	}
 	info := choke.Pkg.TypesInfo
 	cname := w.FuncName(choke.Obj)
@@ -277,7 +280,7 @@ func c05Sanitiser(e *Env) {
 			default:
 				if _, ok := constBytesExpr(w, info, a); ok {
 					r.OK(rule, k, pos, "constant operand")
-				} else if c2, ok := unparen(a).(*ast.CallExpr); ok && calleeOf(info, c2) != nil && calleeOf(info, c2).Origin() == sanitiser {
+				} else if c2, ok := unparen(a).(*ast.CallExpr); ok && sanitiser != nil && calleeOf(info, c2) != nil && calleeOf(info, c2).Origin() == sanitiser {
 					r.OK(rule, k, pos, "value is appended as sanitiser(value)")
 				} else {
 					r.Fail(rule, k, pos, "choke point appends only key, constants and sanitiser(value)", "unrecognised operand `"+types.ExprString(a)+"`")
@@ -288,6 +291,9 @@ func c05Sanitiser(e *Env) {
 	})
 	r.Floor(rule, n, 4, "append operands in the choke point")
 	// sanitiser body
+	if sanitiser == nil {
+		return
+	}
 	sfi := w.DeclOf(sanitiser)
 	if sfi == nil || sfi.Decl.Body == nil {
 		r.Anchor(rule, "body of the sanitiser "+sanitiser.FullName())
